@@ -195,6 +195,22 @@ def _sequence(fl, enabled, threshold, nmsg, a1, a2, a3, jsonp, order):
                 return fail(PROP, 'RESPONSE', '%s did not complete' % what, flavour=sut.flavour)
             if m:
                 return m
+        # later responses of the SAME server are labelled on their own merits: a small payload polled by a client that offers
+        # no encoding, and the handshake of another client
+        sut.app_send(sid, 'tail')
+        sut.settle()
+        r = sut.get(sid, None, extra='&j=5' if jsonp else '')
+        sut.settle()
+        if not r.done:
+            return fail(PROP, 'RESPONSE', 'second poll did not complete', flavour=sut.flavour)
+        m = _check_response(sut, r, None, enabled, threshold, '4tail', 'second poll (no Accept-Encoding)', 5 if jsonp else None)
+        if m:
+            return m
+        r = sut.open('polling')
+        sut.settle()
+        m = _check_response(sut, r, None, enabled, threshold, None, 'handshake of a second client (no Accept-Encoding)')
+        if m:
+            return m
         # a second server instance in the same process must not inherit labels from the first
         sut2 = mk(fl, async_handlers=False, http_compression=False)
         try:
